@@ -82,8 +82,12 @@ func c05Retry(c *core.Ctx) {
 			for t := 0; t < p.N; t++ {
 				nm := scen.Name(t, p.N)
 				// (an abandoned attempt may have completed Init before it failed in a later callback:
-				// the retry goes through the lifecycle again, so "once" is not demanded here)
+				// the retry goes through the lifecycle again, so one completion per abandoned
+				// attempt is allowed on top of the final one)
 				switch {
+				case len(done[nm]) > 1+o.Trace.Failures(nm):
+					c.Report(key("twice"), "lifecycle-sequence", fmt.Sprintf("fault at [%s]: Init of %s completed %d times although only %d creation attempt(s) of it were abandoned; log=%s", armed, nm, len(done[nm]), o.Trace.Failures(nm), strings.Join(log, " ")), cc)
+					return
 				case published[t] && len(done[nm]) == 0:
 					c.Report(key("uninitialised"), "lifecycle-sequence", fmt.Sprintf("fault at [%s] (first attempt abandoned, error ignored by the caller): %s is published although its Init never completed; log=%s", armed, nm, strings.Join(log, " ")), cc)
 					return
